@@ -140,9 +140,11 @@ class Real(object):
             })
         errs = []
         for e in c.errors:
-            errs.append({"cls": err_class(e), "task": e.get("task_id") or "none",
-                         "route": e.get("route") if e.get("route") is not None else -1,
-                         "tr": e.get("task_transition_id") or "none"})
+            pe = {"cls": err_class(e), "task": e.get("task_id") or "none",
+                  "route": e.get("route") if e.get("route") is not None else -1,
+                  "tr": e.get("task_transition_id") or "none", "res": enc(e.get("result"))}
+            if pe not in errs:      # one entry per (class, task, route, transition, result)
+                errs.append(pe)
         out = c.get_workflow_output()
         infl = sorted([list(k) for k, st in self.acts.items() if st in ACTIVE_ACTION])
         dorm = sorted([list(k) for k, st in self.acts.items() if st in DORMANT_ACTION])
